@@ -58,8 +58,8 @@ def oracle(rep, cs, out, expect, sig_prefix, what):
                           {"cases": [m["cmd"]], "impl": vlib.short(res, 600)})
             continue
         rel = expect(m)
-        if rel == "scaled" and outb == m["png"]:
-            rel = "eq"          # not smaller: the input is returned unchanged (C04)
+        if rel == "scaled" and (outb == m["png"] or (pg.parse_img_token(outtok)[3] == 16 and "force=1" not in m["opts"])):
+            rel = "eq"          # the scaled result was not smaller: the image is kept as it is (C04); only forced output must be scaled
         orc.add(f"spec_rel_stream {intok} {outtok}" + (" scaled" if rel == "scaled" else ""), src=cid, rel=rel)
     ro = vlib.run_cases(model, orc.lines)
     for oid, m in orc.meta.items():
